@@ -296,4 +296,18 @@ theorem parse_into_array_appends (l : List Val) (buf : List Byte) (st : St) (hst
       | e => e :=
   parseInto_array l buf st hst h91
 
+/-- a Variant that already holds the map `m`, text = an object: same outcome as `parse` (same errors, same positions);
+    the parsed members are `HashMap::append`ed to `m` in text order - a name that `m` (or an earlier member) already has
+    keeps its place and takes the new value, new names follow behind (`mergeMap` = fold of `mapAppend`; `obj_prefix` by
+    induction over the loop with the invariant "the names collected so far are pairwise different") -/
+theorem parse_into_object_appends (m : List (List Byte × Val)) (buf : List Byte) (st : St)
+    (hst : readToken 1 buf = .ok st) (h123 : st.tok = 123) :
+    parseInto (.map m) buf = match parse buf with
+      | .ok v => .ok (mergeInto m v)
+      | e => e :=
+  parseInto_object m buf st hst h123
+
+example : mergeInto [([97], .int 1), ([98], .null)] (.map [([99], .int 1), ([97], .int 2)])
+    = .map [([97], .int 2), ([98], .null), ([99], .int 1)] := by rfl
+
 end Nstd.Json
